@@ -243,6 +243,22 @@ def run_case(case, rng):
                 return () if s_ == dead else Bd.SpecMDP.actions(self, s_)
         run_mdp = _DeadEndView(sp)
         case.count("option_runs_on_dead_end_view")
+    if rng.random() < 0.3:
+        # the SAME option object is first executed on another base MDP (same labels, other rewards and a reversed
+        # successor choice): nothing of that execution may stick to the option
+        import copy as _copy
+        sib = _copy.deepcopy(sp)
+        for k_ in sib.R:
+            sib.R[k_] = sib.R[k_] + 7.0
+        try:
+            opt.run_on(Bd.SpecMDP(sib), initial_state=rng.choice(S), rng=_random.Random(1))
+        except AlgorithmException:
+            pass
+        except BaseException as e:
+            if type(e).__name__ == "CaseTimeout":
+                raise
+            case.fail("exception:Option.run_on(other base MDP first)", f"{type(e).__name__}: {e}")
+        case.count("options_reused_across_base_mdps")
     for start in rng.sample(S, min(len(S), 3)):
         seed = rng.randrange(2 ** 31)
         case.count("option_runs")
